@@ -136,6 +136,8 @@ class World:
         self.xfer_dst: str | None = None
         self.state = None  # a real dvc_data State shared by the local stores, or None (StateNoop)
         self.store_spelling = "plain"
+        self.reuse = False
+        self._handles = {}
         self.alg = "md5"   # the stores' hash algorithm ("md5-dos2unix": stores written by DVC 2.x)
         self.fault_kind = 0
         os.makedirs(root, exist_ok=True)
@@ -311,6 +313,17 @@ class World:
         from dvc_data.hashfile.db import HashFileDB
         from dvc_data.hashfile.db.local import LocalHashFileDB
 
+        if self.reuse:
+            # one long-lived handle per (store, role): what a handle remembers about its store (the prefix directories it has
+            # seen) must not decide what a query answers
+            key = (s, role, tuple(sorted((k, str(v)) for k, v in config.items() if not (k == "read_only" and v is False))))
+            if key not in self._handles:
+                self.reuse = False
+                try:
+                    self._handles[key] = self.odb(s, role, **config)
+                finally:
+                    self.reuse = True
+            return self._handles[key]
         fs = {"dst": FaultFS, "src": JournalFS, "plain": LocalFileSystem}[role]
         fsobj = fs(self, s) if role != "plain" else LocalFileSystem()
         cls = LocalHashFileDB if self.stores[s] == "local" else HashFileDB
